@@ -124,6 +124,8 @@ func init() {
 			dt := []float64{86400, 86400, 43200, 3600, 600, 60, 7200}[r.Intn(7)]
 			n := r.Range(2, 8)
 			switch {
+			case r.Chance(0.12):
+				n = []int{9, 10, 12, 16, 17, 24, 33}[r.Intn(7)] // long tables (a search that changes algorithm above a size threshold)
 			case r.Chance(0.02):
 				n = 1 // a single knot: Piecewise finds no bracket → panic(err)
 			case r.Chance(0.01):
